@@ -11,9 +11,30 @@ def main(tier):
     common.model_step(chk, "C15", tier)
     sp = common.fit_frag(common.transfer_specs(tier, seed + 15))
     results = common.run_specs(sp, ["C15"])
+    # scripted client that changes the fragment size while a packet is in flight (the stock client sets it once)
+    import random
+    import script
+    rng = random.Random(seed)
+    fsp = []
+    for i in range(60 if tier == "quick" else 1500):
+        n = rng.choice([2, 2, 3])
+        fsp.append({"seed": seed * 100000 + 15000 + i, "qtype": common.QTYPES[i % 7] if i % 3 else "NULL",
+                    "sizes": [rng.choice([1000, 600, 1200, 300, 100, 50, 17, 3, 2, 1, 2047, 4094, 65535]) for _ in range(n)],
+                    "pkt": rng.choice([300, 1200, 1400, 3000]), "ackp": rng.choice([0.0, 0.3, 0.6, 0.9]),
+                    "lazy": bool(i % 2), "downenc": rng.choice([None, None, "S", "V"]) if common.QTYPES[i % 7] not in ("NULL", "PRIVATE") and i % 3 else None,
+                    "change_at": sorted(rng.sample(range(1, 12), n - 1)), "offer_at": [rng.randrange(5, 30)],
+                    "pings": 40, "check_ip": i % 5 != 0, "label": "fragscript%d" % i})
+    for f in fsp:
+        # C15 speaks about a NEGOTIATED size: CNAME/A answers hold one ~250-character name, a size above what that
+        # carries is never negotiated (the probe fails) - same rule as common.fit_frag
+        if f["qtype"] in ("CNAME", "A"):
+            f["sizes"] = [x if x <= 100 else rng.choice([100, 50, 17, 2, 1]) for x in f["sizes"]]
+    fres = vcheck.parallel(script.frag_execute, fsp)
+    results = results + fres
     common.judge(chk, results, "TraceMonFragsize", "TraceMonFragsize.cfg", "fragsize", key="C15")
     chk.cov["evaluations"] = sum(r["stats"].get("data_answers", 0) for r in results)
     chk.cov["runs"] = len(results)
+    chk.cov["scripted_size_change_runs"] = len(fres)
     sizes = set()
     for r in results:
         for e in r["C15"]:
